@@ -276,6 +276,13 @@ impl Node {
             .store(st, std::sync::atomic::Ordering::SeqCst);
     }
 
+    /// Verification hook: whether this node has a connection pool at all (the real state behind
+    /// `is_enabled`, ignoring `verif_override_state`).
+    #[cfg(scylla_verif)]
+    pub fn verif_has_pool(&self) -> bool {
+        self.pool.is_some()
+    }
+
     /// Verification hook: give this (pool-less) node a sharder.
     #[cfg(scylla_verif)]
     pub fn verif_set_sharder(&self, sharder: Sharder) {
